@@ -42,6 +42,9 @@ enum ArchKind {
     TruncatedToPreHeader,
     VerifyHeaderMismatch,
     VerifyHeaderMatch,
+    /// Valid framing and header checksum, but the dictionary is invalid: a compression id
+    /// no version defines / a rebuild index beyond the descriptors / no chunker parameters.
+    InvalidDictionary(u8),
 }
 
 #[derive(Clone, Copy, Debug)]
@@ -113,6 +116,9 @@ fn all_cells() -> Vec<Cell> {
         ArchKind::TruncatedToPreHeader,
         ArchKind::VerifyHeaderMismatch,
         ArchKind::VerifyHeaderMatch,
+        ArchKind::InvalidDictionary(0),
+        ArchKind::InvalidDictionary(1),
+        ArchKind::InvalidDictionary(2),
     ];
     let mut v = Vec::new();
     for out in outs {
@@ -185,6 +191,21 @@ fn clone_cell(rep: &Report, idx: usize, cell: &Cell, seed: u64) -> Option<String
                 verify = Some(hex(&s));
             }
             ArchKind::VerifyHeaderMatch => verify = Some(hex(&arch.model.parsed.header_checksum)),
+            ArchKind::InvalidDictionary(k) => {
+                let mut d = arch.model.parsed.dict.clone();
+                match k {
+                    0 => d.compression = Some((*rng.pick(&[4u32, 7, 100, u32::MAX]), 1)),
+                    1 => {
+                        let nd = d.descs.len() as u32;
+                        let i = rng.usize_below(d.rebuild_order.len().max(1));
+                        if let Some(x) = d.rebuild_order.get_mut(i) {
+                            *x = nd + rng.below(3) as u32;
+                        }
+                    }
+                    _ => d.params = None,
+                }
+                abytes = crate::refimpl::enc::assemble(&d, &crate::refimpl::codec::EncStyle::default(), None, &arch.bytes[hl..]);
+            }
         }
         let apath = dir.join("served.cba");
         std::fs::write(&apath, &abytes).unwrap();
